@@ -33,7 +33,7 @@ RULE = (
     "case = (1-2 writer threads, each a list of critical sections `with tree:` of 2-3 mutation steps whose "
     "intermediate states are distinguishable from every committed state (paired nodes, clear+rebuild, add+move), "
     "optionally nesting `with tree:` and calling snapshot operations inside; 1-3 reader threads calling save (to a "
-    "stream and to a file path), to_dotfile (stream and path), copy, "
+    "stream and to a file path), to_dotfile (stream and path), copy_to(deep=False), copy, "
     "copy(predicate), filtered, copy_to, to_dict_list(mapper), to_dotfile(stream, node_mapper), `with tree:`+iterate; "
     "a schedule = list of ints). Oracle: every snapshot, decoded to a shape, equals a committed state S_j with "
     "commits-at-call-start <= j <= commits-at-return; no deadlock, no hang; no exception. Exhaustive part: ALL "
@@ -49,7 +49,7 @@ ASSUMPTIONS = [
 ]
 EXHAUSTIVE_NOTE = {"quick": "all schedules of a pair section x each of 8 snapshot operations, of a rebuild section x {to_dict_list, save} and of a typed pair section x save (evidence classes say whether a limit was hit)", "thorough": "all schedules of {pair, rebuild, move} section x each of 8 snapshot operations, plus 2-section writers"}
 
-READER_OPS = ["save", "copy", "copy_pred", "filtered", "copy_to", "to_dict_list", "to_dotfile", "with+iterate", "save_path", "to_dotfile_path"]
+READER_OPS = ["save", "copy", "copy_pred", "filtered", "copy_to", "to_dict_list", "to_dotfile", "with+iterate", "save_path", "to_dotfile_path", "copy_to_shallow"]
 SECTIONS = ["pair", "rebuild", "move"]
 
 
@@ -204,6 +204,11 @@ def do_reader_op(tree, op):
         other = TypedTree("O") if isinstance(tree, TypedTree) else Tree("O")
         tree.copy_to(other)
         return tshape(other)
+    if op == "copy_to_shallow":
+        other = TypedTree("O") if isinstance(tree, TypedTree) else Tree("O")
+        yield_point("before-copy_to")
+        tree.copy_to(other, deep=False)
+        return ["__toplevel-only__", [lab(n) for n in other.children]]
     if op == "to_dict_list":
         lst = tree.to_dict_list(mapper=y_mapper)
 
@@ -264,6 +269,13 @@ def do_reader_op(tree, op):
     raise AssertionError(op)
 
 
+def agrees(res, state):
+    """does the snapshot `res` show the committed state `state`? (a shallow copy shows its top level only)"""
+    if isinstance(res, list) and len(res) == 2 and res[0] == "__toplevel-only__":
+        return res[1] == [n[0] for n in state]
+    return res == state
+
+
 def run_program(program, schedule):
     """-> (violations list, info)"""
     tree = base_tree(program.get("typed", False))
@@ -308,7 +320,7 @@ def run_program(program, schedule):
     for op, j0, j1, res, err in results:
         if err is not None:
             v.append((f"snapshot-raised:{op}:{type(err).__name__}", repr(err)[:200]))
-        elif not any(res == committed[j] for j in range(j0, min(j1, len(committed) - 1) + 1)):
+        elif not any(agrees(res, committed[j]) for j in range(j0, min(j1, len(committed) - 1) + 1)):
             v.append((f"torn-or-stale-snapshot:{op}", {"snapshot": res, "committed": committed[j0 : j1 + 1]}))
     blocked = sum(t.times_blocked for t in S.threads)
     return v, {"blocked": blocked, "trace": S.trace, "choices": S.choices, "decisions": len(S.trace)}
@@ -404,7 +416,7 @@ def run_real(case, rec):
         return
     if "err" in out:
         rec.fail(f"real-lock:snapshot-raised:{op}", repr(out["err"])[:200])
-    elif out.get("res") not in committed:
+    elif not any(agrees(out.get("res"), c) for c in committed):
         rec.fail(f"real-lock:torn-snapshot:{op}", {"snapshot": out.get("res"), "committed": committed})
 
 
@@ -413,7 +425,7 @@ def enum_cases(tier):
     kinds = ["pair", "rebuild"] if tier == "quick" else SECTIONS
     for kind in kinds:
         for op in READER_OPS:
-            if tier == "quick" and kind == "rebuild" and op not in ("to_dict_list", "save"):
+            if tier == "quick" and kind == "rebuild" and op not in ("to_dict_list", "save", "copy_to_shallow"):
                 continue
             yield {"program": {"writers": [[{"kind": kind}]], "readers": [[op]]}, "limit": 4000 if tier == "quick" else 100000}
     # typed trees: the writer introduces a kind that no committed node had before
